@@ -460,7 +460,7 @@ func genCase(expo bool) func(t *rapid.T) Case {
 			g.win0 = int64(g.ce)<<uint(g.winScale) + rapid.Int64Range(0, int64(1)<<uint(g.winScale)-1).Draw(t, "win0")
 		}
 
-		n := vk.GenLen(200, 0, 1, 2, 3, 8, 40, 200).Draw(t, "nvalues")
+		n := vk.GenLen(200, 1, 2, 3, 8, 40, 120, 200).Draw(t, "nvalues")
 		if g.mode == 1 {
 			g.farFrom = rapid.IntRange(0, n).Draw(t, "farfrom")
 		}
